@@ -214,6 +214,9 @@ func TestVerif_PausedCommit(t *testing.T) {
 				continue
 			}
 			ntab := 2 + r.Rand(idx).IntN(3)
+			if r.Violations() >= 3 {
+				continue // fail fast: every stuck probe costs its full timeout
+			}
 			r.LogCase(idx)
 			key, msg, reached := pausedCommit(ctl, idx, p, ntab)
 			if reached {
